@@ -277,6 +277,46 @@ func checkRSA(c rsaCase) (v *mc.Viol, class string) {
 	return nil, fmt.Sprintf("rsa: round-trip+DER ok outer-len=%s n-signpad=%d e-signpad=%d", lenForm(len(outer)), npad, epad)
 }
 
+// checkWalk: ONE key object whose modulus integer (and exponent) the caller changes in place
+// between encodings - a key slot that is refilled: every encoding must be that of the value the
+// key holds at the time of the call.
+type walkCase struct {
+	Bits int `json:"modulus_bits"`
+}
+
+func checkWalk(c walkCase) *mc.Viol {
+	mag := modulus(c.Bits, 3)
+	N := new(big.Int).SetBytes(mag)
+	key := &rsa.PublicKey{N: N, E: 65537}
+	for step := 0; step < 6; step++ {
+		if step > 0 {
+			N.Add(N, big.NewInt(2)) // in place: the same *big.Int
+			if step == 3 {
+				key.E = 3
+			}
+		}
+		want := handPSSSPKI(N.Bytes(), uint64(key.E))
+		var pss, legacy []byte
+		var e1, e2 error
+		if p := mc.Catch(func() {
+			pss, e1 = util.MarshalTokenKeyPSSOID(key)
+			legacy, e2 = util.MarshalTokenKeyRSAEncryptionOID(key)
+		}); p != "" || e1 != nil || e2 != nil {
+			return &mc.Viol{Sig: "MarshalTokenKey* fails on a key object that is refilled in place", What: fmt.Sprintf("bits=%d step %d: %s %v %v", c.Bits, step, p, e1, e2)}
+		}
+		if !bytes.Equal(pss, want) {
+			return &mc.Viol{Sig: "RSASSA-PSS encoding of a key object refilled in place is not the encoding of its current value", What: fmt.Sprintf("bits=%d step %d (modulus advanced in place %d times)", c.Bits, step, step)}
+		}
+		for _, enc := range [][]byte{pss, legacy} {
+			got, err := util.UnmarshalTokenKey(enc)
+			if err != nil || got.N.Cmp(N) != 0 || got.E != key.E {
+				return &mc.Viol{Sig: "decoding does not invert encoding for a key object refilled in place", What: fmt.Sprintf("bits=%d step %d: %v", c.Bits, step, err)}
+			}
+		}
+	}
+	return nil
+}
+
 func checkRSASafe(c rsaCase) (v *mc.Viol, class string) {
 	if p := mc.CatchStack(func() { v, class = checkRSA(c) }); p != "" {
 		// only harness code can panic here (target calls are guarded individually)
@@ -613,6 +653,11 @@ func main() {
 		v, _ := checkRSASafe(c)
 		return v
 	})
+	r.RegisterReplay("walk", func(pj json.RawMessage) *mc.Viol {
+		var c walkCase
+		json.Unmarshal(pj, &c)
+		return checkWalk(c)
+	})
 	r.RegisterReplay("keyid", func(pj json.RawMessage) *mc.Viol {
 		var c idCase
 		json.Unmarshal(pj, &c)
@@ -674,6 +719,14 @@ func main() {
 			r.Sample(c)
 		}
 	})
+
+	for _, b := range []int{64, 512, 2048, 2049} {
+		c := walkCase{Bits: b}
+		if v := checkWalk(c); v != nil {
+			r.Violation("walk", c, v)
+		}
+		r.Case(fmt.Sprintf("walk-%d", b), true, "rsa: key object refilled in place: every encoding is that of the current value")
+	}
 
 	// --- key identifiers
 	nOPRF := mc.Pick(r, 6, 24)
